@@ -36,7 +36,12 @@ Monitors
                       BioCantor exception (there is no CDS system: every position is outside it)
 
 Latitude
-  * transcripts whose CDS blocks overlap each other are not generated (C is not a sub-list of E there);
+  * transcripts whose CDS blocks overlap each other are not generated (C is not a sub-list of E there); a CDS that *skips*
+    1..2 bases inside an exon (+1 / +2 frameshift model) is generated (variant "skip"): C is then a non-contiguous sub-list of E,
+    the skipped bases have no CDS position (rejected) and belong to neither UTR nor CDS, everything else is list indexing as before;
+  * exon blocks that overlap or nest (kind "ovl", non-coding transcripts and features): a doubly covered base has two transcript
+    positions, either is accepted; position -> sequence follows the library's own canonical block order, whose multiset of
+    positions must equal the spec's; only the point maps are claimed there;
   * zero-width results are compared by len == 0 only (their coordinates, type and strand are free);
   * "rejected" = any BioCantorException or ValueError;
   * a result whose strand is unstranded is compared as a multiset of positions;
@@ -120,17 +125,20 @@ CDS_METHODS_ON_NONCODING = (
 # ------------------------------------------------------------------------------------------------------------------
 # model
 # ------------------------------------------------------------------------------------------------------------------
-def model(exons, strand, cds):
+def model(exons, strand, cds, gapped=False):
+    """gapped: the CDS skips one or two bases inside an exon (how a +1 / +2 frameshift is modelled): C is then an order-preserving
+    but not contiguous sub-list of E; the skipped bases belong to neither UTR nor CDS."""
     E = PM.positions(exons, strand)
     lo, hi = min(s for s, _ in exons), max(e for _, e in exons)
     m = {"E": E, "C": None, "lo": lo, "hi": hi, "introns": set(range(lo, hi)) - set(E)}
     if cds:
         C = PM.positions(cds, strand)
         a, b = E.index(C[0]), E.index(C[-1])
-        if E[a:b + 1] != C:
+        where = [E.index(p) if p in E else -1 for p in C]
+        if (E[a:b + 1] != C and not gapped) or -1 in where or where != sorted(set(where)):
             from bcv.core import HarnessError
 
-            raise HarnessError(f"generator produced a CDS that is not a contiguous part of the exons: {exons} {cds}")
+            raise HarnessError(f"generator produced a CDS that is not a {'sub-list' if gapped else 'contiguous part'} of the exons: {exons} {cds}")
         m.update(C=C, a=a, b=b, utr5=E[:a], utr3=E[b + 1:], clo=min(s for s, _ in cds), chi=max(e for _, e in cds))
     return m
 
@@ -244,6 +252,15 @@ def cases(spec, ctx):
                     s, e = cds[j]
                     cut = rng.randint(s + 1, e - 1)
                     cds, variant = cds[:j] + [[s, cut], [cut, e]] + cds[j + 1:], "split"
+            if variant == "plain" and 0.62 < r < 0.85:
+                # a CDS that skips 1..2 bases inside an exon (+1 / +2 frameshift model): not contiguous on the spliced transcript
+                big = [j for j, (s, e) in enumerate(cds) if e - s >= 4]
+                if big:
+                    j = rng.choice(big)
+                    s, e = cds[j]
+                    k = rng.choice([1, 1, 2])
+                    cut = rng.randint(s + 1, e - 1 - k)
+                    cds, variant = cds[:j] + [[s, cut], [cut + k, e]] + cds[j + 1:], "skip"
             if variant != "plain":
                 frames = FM.consistent_frames(cds, t["strand"], rng.choice([0, 0, 1, 2]))
         mode = rng.choice(MODES)
@@ -253,6 +270,27 @@ def cases(spec, ctx):
                                rng.choice([t["exons"][-1][1], rng.randint(t["exons"][-1][1], glen)])]
         yield {"kind": "rand", "exons": t["exons"], "strand": t["strand"], "cds": cds, "frames": frames, "glen": glen, "parent": pspec,
                "ivl": "sample", "nint": sc["NI"], "seed": rng.randrange(1 << 30), "variant": variant}
+    # transcripts / features whose exon blocks overlap or nest (the location classes keep such blocks; a doubly covered base has two
+    # positions on the transcript).  Own random stream, so the cases above do not depend on this leg.
+    orng = random.Random(f"C06-ovl:{ctx.seed}:{i}")
+    for k in range(sc["NR"] // (4 * n) + 1):
+        glen = orng.choice([16, 30, 60])
+        nb = orng.choice([2, 2, 3, 4])
+        blocks = []
+        while len(blocks) < nb:
+            s0 = orng.randint(0, glen - 3)
+            blocks.append([s0, orng.randint(s0 + 1, min(glen, s0 + orng.choice([2, 5, 12])))])
+        # force one nested / straddling pair
+        s0, e0 = max(blocks, key=lambda b: b[1] - b[0])
+        if e0 - s0 >= 3:
+            blocks.append(orng.choice([[s0 + 1, e0 - 1], [s0, e0 - 1], [s0 + 1, min(glen, e0 + 1)]]))
+        blocks = sorted(set(map(tuple, blocks)))
+        mode = orng.choice(MODES)
+        pspec = {"mode": mode}
+        if mode == "chunk":
+            pspec["window"] = [orng.randint(0, blocks[0][0]), orng.randint(max(e for _, e in blocks), glen)]
+        yield {"kind": "ovl", "exons": [list(b) for b in blocks], "strand": orng.choice("+-"), "cds": None, "frames": None, "glen": glen,
+               "parent": pspec}
 
 
 # ------------------------------------------------------------------------------------------------------------------
@@ -502,6 +540,8 @@ def check_cds_tx(ctx, tx, M, probes, shift):
     ctx.check("commute.inverse", bad is None, key="sequence-side round trips", bad=bad)
     bad = None
     for j in range(M["a"], M["b"] + 1):
+        if E[j] not in cidx:
+            continue    # a base skipped by a gapped CDS has no CDS position (its rejection is checked above)
         r, e = via(tx.transcript_pos_to_cds, tx.cds_pos_to_transcript, j)
         if e is not None or r != j:
             bad = {"index": j, "back": r, "exc": _x(e)}
@@ -548,8 +588,9 @@ def check_utrs(ctx, tx, M, strand, shift, multi_exon):
         disjoint = len(set(p5) | set(pc) | set(p3)) == len(p5) + len(pc) + len(p3)
         ctx.check("utr.partition", disjoint, key="disjoint", utr5=p5, cds=pc, utr3=p3)
         lib_exons = _enum(tx.chunk_relative_location, shift)[0]
-        ctx.check("utr.partition", p5 + pc + p3 == E and lib_exons == E, key="ordered-exact-cover", utr5=p5, cds=pc, utr3=p3, exons=E,
-                  library_exons=lib_exons)
+        skipped = set(E[M["a"]:M["b"] + 1]) - set(C)      # non-empty only for a gapped CDS
+        ctx.check("utr.partition", p5 + pc + p3 == [q for q in E if q not in skipped] and lib_exons == E, key="ordered-exact-cover", utr5=p5, cds=pc,
+                  utr3=p3, exons=E, library_exons=lib_exons, skipped_by_cds=sorted(skipped))
     else:
         ctx.seen("utr.partition")
     ctx.seen("utr.empty-at-end")
@@ -591,7 +632,9 @@ def run_case(case, ctx):
     rot = case.get("rot", 0)
     nint = case.get("nint", 8)
     rng = random.Random(case.get("seed", 0))
-    M = model(exons, strand, cds)
+    if kind == "ovl":
+        return run_overlapping(case, ctx)
+    M = model(exons, strand, cds, gapped=case.get("variant") == "skip")
     E, C, lo, hi = M["E"], M["C"], M["lo"], M["hi"]
     genome = ("ACGT" * (glen // 4 + 1))[:glen]
     if mode == "chunk":
@@ -656,6 +699,67 @@ def run_case(case, ctx):
     check_utrs(ctx, tx, M, strand, shift, multi)
     check_gaps(ctx, tx, E, lo, hi, shift, "TranscriptInterval")
     check_gaps(ctx, tx.cds, C, M["clo"], M["chi"], shift, "CDSInterval")
+
+
+def run_overlapping(case, ctx):
+    """Exon blocks that overlap / nest: a doubly covered base has two positions on the transcript.  Point maps only:
+    position -> sequence is list indexing on the library's own (canonical) block order, whose multiset of positions must be the
+    spec's; sequence -> position must answer with *a* preimage for every covered base and reject every other position; the
+    composition position -> sequence -> position -> sequence is the identity on bases."""
+    exons = sorted(tuple(b) for b in case["exons"])
+    strand = case["strand"]
+    glen = case["glen"]
+    pspec = dict(case["parent"])
+    mode = pspec["mode"]
+    lo, hi = min(s for s, _ in exons), max(e for _, e in exons)
+    shift = pspec["window"][0] if mode == "chunk" else 0
+    genome = ("ACGT" * (glen // 4 + 1))[:glen]
+    parent = GG.build_parent({"mode": mode, "genome": genome, "seqname": "chr1", "window": pspec.get("window")})
+    rej = _reject_types()
+    ctx.note(("ovl", G.layout_signature(exons, strand), mode), nontrivial=True, klass=f"overlapping-exons-{mode}")
+    want_multiset = sorted(p for s, e in exons for p in range(s, e))
+    for label, build, spec, names in (("TranscriptInterval", GG.build_transcript, {"exons": [list(b) for b in exons], "strand": strand, "cds": None, "frames": None}, NAMES["transcript"]),
+                                      ("FeatureInterval", GG.build_feature, {"blocks": [list(b) for b in exons], "strand": strand}, NAMES["feature"])):
+        mon = "tx.pos-maps" if label == "TranscriptInterval" else "feature.maps"
+        obj, exc = ctx.call(build, spec, parent)
+        if exc is not None:
+            ctx.check(mon, isinstance(exc, rej), key=("overlapping-exons", "constructor-internal-error", type(exc).__name__), exc=_x(exc))
+            ctx.bump("overlapping-exons-refused-by-constructor")
+            continue
+        E, gst = _enum(obj.chunk_relative_location, shift)
+        ctx.check(mon, sorted(E) == want_multiset and gst == strand, key=("overlapping-exons", label, "blocks-kept"), got=sorted(E), want=want_multiset)
+        n = len(E)
+        where = {}
+        for i2, q in enumerate(E):
+            where.setdefault(q, []).append(i2)
+        for fn_name, sh in ((names[0], 0), (names[1], shift)):
+            fn = getattr(obj, fn_name)
+            for q in range(lo - 2, hi + 2):
+                r, e = ctx.call(fn, q - sh)
+                if q in where:
+                    ctx.check(mon, e is None and _is_int(r) and r in where[q], key=("overlapping-exons", fn_name, "value"), pos=q - sh, got=r,
+                              admissible=where[q], exc=_x(e), blocks=exons, strand=strand)
+                else:
+                    ctx.check(mon, isinstance(e, rej), key=("overlapping-exons", fn_name, "reject-outside"), pos=q - sh, got=r, exc=_x(e))
+        for fn_name, sh in ((names[2], 0), (names[3], shift)):
+            fn = getattr(obj, fn_name)
+            for i2 in range(-2, n + 2):
+                r, e = ctx.call(fn, i2)
+                if 0 <= i2 < n:
+                    ctx.check(mon, e is None and _is_int(r) and r == E[i2] - sh, key=("overlapping-exons", fn_name, "value"), index=i2, got=r,
+                              want=E[i2] - sh, exc=_x(e), blocks=exons, strand=strand)
+                else:
+                    ctx.check(mon, isinstance(e, rej), key=("overlapping-exons", fn_name, "reject-outside"), index=i2, length=n, got=r, exc=_x(e))
+        bad = None
+        to_src, to_rel = getattr(obj, names[2]), getattr(obj, names[0])
+        for i2 in range(n):
+            q, e1 = ctx.call(to_src, i2)
+            j, e2 = ctx.call(to_rel, q) if e1 is None else (None, e1)
+            q2, e3 = ctx.call(to_src, j) if e2 is None else (None, e2)
+            if e3 is not None or q2 != q:
+                bad = {"index": i2, "base": q, "back_index": j, "back_base": q2, "exc": _x(e3)}
+                break
+        ctx.check("commute.inverse", bad is None, key=("overlapping-exons", label, "position->sequence->position->sequence"), bad=bad, blocks=exons)
 
 
 def classify(v):
